@@ -277,6 +277,9 @@ def o4(h, st):
     h.done()
 
 
+from tverif.engine import repeatable
+repeatable((TT, "trim_trivial_qubits"), (TT, "trim_trivial_circuit"), (TT, "trim_trivial_operator"))
+
 PROPERTY = {
     "level": "other",
     "explanation": "Truncation: the discarded part's Frobenius norm is proved <= epsilon for every coefficient value, every epsilon and register sizes odd and even "
